@@ -150,7 +150,8 @@ def diff_obs(exp, obs):
 
 
 def run_match(ctx, cov, d, cases, meta, rng, workers):
-    names = ["".join(t) for n in range(1, meta["maxname"] + 1) for t in itertools.product(meta["alphabet"], repeat=n)]
+    names = ["".join(t) for n in range(1, meta["maxname"] + 1) for t in itertools.product(meta["alphabet"], repeat=n)
+             if n < meta["maxname"] or t[0] in meta["longheads"]]
     objs = [names_object(d, f"f{k}.o", str(k), names) for k in range(K)]
     # deduplicate by text; order: predicted-short patterns (the pinned wild panics on them) in their own batches
     uniq = {}
@@ -261,7 +262,8 @@ def run_match(ctx, cov, d, cases, meta, rng, workers):
                        {"cmd": cmd, "pattern": c["text"]})
             else:
                 msg = re.sub(r"/\S+/", "", w1.err.strip().splitlines()[0] if w1.err.strip() else "")[:80]
-                record(f"rejected:{c['text']}", f"valid pattern `{c['text']}` is rejected by wild: {msg}", files,
+                rk = "rejected:consecutive-stars" if "**" in c["text"] else f"rejected:{c['text']}"
+                record(rk, f"valid pattern `{c['text']}` is rejected by wild: {msg}", files,
                        {"cmd": cmd, "pattern": c["text"], "expected": "link succeeds (GNU ld does)", "observed": w1.err[:400]})
 
     with ThreadPoolExecutor(max_workers=workers) as ex:
@@ -335,7 +337,9 @@ def run_place(ctx, cov, d, cases, meta, rng, workers):
                 key = "section-lost"
             elif k == "name-shorter-than-4" and o == s:
                 key = "unmatched:name-shorter-than-4"
-            elif k == "wildcard-in-first-4-bytes" and o == s:
+            elif k == "wildcard-in-first-4-bytes":
+                # the description that should have won has a wildcard within its first 4 bytes and is
+                # never consulted; the section falls through to a later description or becomes an orphan
                 key = "unmatched:wildcard-in-first-4-bytes"
             elif k == "order-among-same-key" and o.startswith(".o"):
                 key = "first-match-order:descriptions-sharing-index-key"
